@@ -63,7 +63,7 @@ struct TypeInfo
   bool is_signed;
   int bytes;
   double tmin, tmax;
-  bool wide; // stir::round(float)->int is narrower than the output type
+  bool wide; // the type's range exceeds that of int (automatic scaling gives quotients beyond INT_MAX)
 };
 static const TypeInfo TYPES[] = {
   { NumericType::SCHAR, "SCHAR", true, true, 1, -128., 127., false },
@@ -767,9 +767,17 @@ check_values(Ctx& ctx, std::set<std::string>& seen, const TypeInfo& t, const std
       const double allowed = (0.5 + fb) * step + 4 * U32 * (std::fabs(v[k]) + step) + DENORM;
       if (!(e <= allowed))
         {
+          // why: the stored integer is not the rounded value / (writer's scale)?  else: the header does not carry that scale?
           std::string cls = why_scale;
-          if (cls.empty() && have_st && std::fabs(st[k] - q) > 0.5 + fb)
-            cls = (std::fabs(q) > t.tmax + 0.5 + fb || q < t.tmin - 0.5 - fb) ? "quotient-outside-type-range:" : "stored-integer-wrong:";
+          if (have_st && S_lib != 0.f)
+            {
+              const double ql = static_cast<double>(v[k]) / S_lib;
+              const double fbl = std::ldexp(std::fabs(ql), -22) + std::ldexp(1., -23);
+              if (std::fabs(st[k] - ql) > 0.5 + fbl)
+                cls = (ql > t.tmax + 0.5 + fbl || ql < t.tmin - 0.5 - fbl) ? "quotient-outside-type-range:"
+                      : std::fabs(ql) + 0.5 > 2147483647.                   ? "quotient-beyond-int-range-stored-wrong:"
+                                                                            : "stored-integer-wrong:";
+            }
           strict(ctx, "scaled-int-value-beyond-half-step:" + cls + T,
                  fmt("voxel %zu: written %.9g read back %.9g: |diff| %.6g = %.6g steps (allowed %.6g steps); step %.9g, value/step = %.17g, stored "
                      "integer %.17g, type range [%.17g, %.17g] ",
@@ -809,7 +817,7 @@ check_values(Ctx& ctx, std::set<std::string>& seen, const TypeInfo& t, const std
 
 // a float32 exam-info number after the round trip
 static bool
-close6(double w, double r)
+close_f32(double w, double r)
 {
   return std::fabs(w - r) <= FLT_REL * std::fabs(w) + 1e-30;
 }
@@ -869,11 +877,11 @@ check_exam_info(Ctx& ctx, const ExamInfo& w, const ExamInfo& r, const std::vecto
       {
         if (wr.get_name() != rr.get_name())
           strict(ctx, "exam-info:radionuclide-name", "written '" + wr.get_name() + "' read '" + rr.get_name() + "' " + tag.str());
-        if (!close6(wr.get_half_life(false), rr.get_half_life(false)))
+        if (!close_f32(wr.get_half_life(false), rr.get_half_life(false)))
           strict(ctx, "exam-info:radionuclide-half-life",
                  fmt("written %.9g read %.9g ", static_cast<double>(wr.get_half_life(false)), static_cast<double>(rr.get_half_life(false)))
                      + tag.str());
-        if (!close6(wr.get_branching_ratio(false), rr.get_branching_ratio(false)))
+        if (!close_f32(wr.get_branching_ratio(false), rr.get_branching_ratio(false)))
           strict(ctx, "exam-info:radionuclide-branching-ratio",
                  fmt("written %.9g read %.9g ", static_cast<double>(wr.get_branching_ratio(false)),
                      static_cast<double>(rr.get_branching_ratio(false)))
@@ -886,7 +894,7 @@ check_exam_info(Ctx& ctx, const ExamInfo& w, const ExamInfo& r, const std::vecto
   }
   if (w.get_low_energy_thres() > 0 && w.get_high_energy_thres() > 0)
     {
-      if (!close6(w.get_low_energy_thres(), r.get_low_energy_thres()) || !close6(w.get_high_energy_thres(), r.get_high_energy_thres()))
+      if (!close_f32(w.get_low_energy_thres(), r.get_low_energy_thres()) || !close_f32(w.get_high_energy_thres(), r.get_high_energy_thres()))
         strict(ctx, "exam-info:energy-window",
                fmt("written [%.9g, %.9g] read [%.9g, %.9g] ", static_cast<double>(w.get_low_energy_thres()),
                    static_cast<double>(w.get_high_energy_thres()), static_cast<double>(r.get_low_energy_thres()),
@@ -902,7 +910,7 @@ check_exam_info(Ctx& ctx, const ExamInfo& w, const ExamInfo& r, const std::vecto
   nf += 2;
   if (w.get_calibration_factor() > 0)
     {
-      if (!close6(w.get_calibration_factor(), r.get_calibration_factor()))
+      if (!close_f32(w.get_calibration_factor(), r.get_calibration_factor()))
         strict(ctx, "exam-info:calibration-factor",
                fmt("written %.9g read %.9g ", static_cast<double>(w.get_calibration_factor()), static_cast<double>(r.get_calibration_factor()))
                    + tag.str());
@@ -946,10 +954,9 @@ needed_scale(const TypeInfo& t, const std::vector<float>& v)
   const double m = max_abs(v);
   if (!t.is_int)
     return m > 0 ? m : 1.;
-  const double lim = t.wide ? 1.0e9 : (t.is_signed ? t.tmax : t.tmax); // wide: keep the quotient inside int
-  return m > 0 ? m / lim * 1.02 : 1.;
+  return m > 0 ? m / t.tmax * 1.02 : 1.;
 }
-// user scale for mode "auto" | "too-small" | "larger" | "larger-nice" | "one"; `safe`: quotient must stay inside int (wide types, DOUBLE)
+// user scale for mode "auto" | "too-small" | "larger" | "larger-nice" | "one"
 static float
 pick_scale(vf::Rng& r, const TypeInfo& t, const std::vector<float>& v, const std::string& mode)
 {
@@ -975,10 +982,9 @@ pick_scale(vf::Rng& r, const TypeInfo& t, const std::vector<float>& v, const std
 static std::string
 pick_mode(vf::Rng& r, const TypeInfo& t, bool allow_auto)
 {
-  // wide integer types and DOUBLE: automatic scaling is probed separately (see probe cases)
-  const bool no_auto = t.wide || t.id == NumericType::DOUBLE || !allow_auto;
+  const bool no_auto = !allow_auto;
   const double u = r.u01();
-  if (t.id == NumericType::DOUBLE && u < 0.25)
+  if (t.id == NumericType::DOUBLE && u >= 0.55 && u < 0.65)
     return "one";
   if (!no_auto && u < 0.45)
     return "auto";
@@ -1026,9 +1032,10 @@ what_of()
       return "unknown exception";
     }
 }
-// Defect class "unsigned output of an image without positive values": with automatic scaling the global scale factor is
-// <= 0; an x-row whose voxels are all negative then makes write_data() fail (the per-row find_scale_factor turns the scale
-// negative), but write_basic_interfile ignores write_data()'s result.  nx = length of the innermost (x) dimension.
+// Classification of a failed read-back only (defect fixed in convert_range.inl: "find_scale_factor must ignore negative data
+// for unsigned output types"): unsigned output of an image without positive values with automatic scaling gave a global
+// scale factor <= 0; an x-row whose voxels are all negative then made write_data() fail, but write_basic_interfile ignores
+// write_data()'s result.  nx = length of the innermost (x) dimension.
 static bool
 unsigned_autoscale_write_breaks(const TypeInfo& t, float su, const std::vector<float>& v, int nx)
 {
@@ -1077,8 +1084,7 @@ roundtrip_single(Ctx& ctx, std::set<std::string>& seen, const Image& im, const s
   ctx.count(std::string("type_") + t.name, 1);
   ctx.count(s.little ? "byte_order_little" : "byte_order_big", 1);
   ctx.count("scale_mode_" + s.mode, 1);
-  if (fn != base + ".hv")
-    strict(ctx, "returned-filename-unexpected", "returned '" + fn + "' " + tag.str());
+  // fn is now the name "such that the file can be read back using this string" (OutputFileFormat::write_to_file)
 
   unique_ptr<DiscretisedDensity<3, float>> rd;
   std::string why;
@@ -1097,13 +1103,7 @@ roundtrip_single(Ctx& ctx, std::set<std::string>& seen, const Image& im, const s
                                 "values e.g. %.9g ",
                                 why.c_str(), file_size(base + ".v"), v.size() * t.bytes, v.empty() ? 0. : static_cast<double>(v[0]))
                             + tag.str();
-      if (k4)
-        {
-          defect(ctx, seen, std::string("unsigned-output-of-nonpositive-image-unreadable:") + t.name, w);
-          remove_files(base);
-          return;
-        }
-      strict(ctx, std::string("read-back-failed:") + t.name, w);
+      strict(ctx, std::string(k4 ? "read-back-failed:unsigned-output-of-image-without-positive-values:" : "read-back-failed:") + t.name, w);
     }
   const Image* rim = dynamic_cast<const Image*>(rd.get());
   if (!rim)
@@ -1111,14 +1111,16 @@ roundtrip_single(Ctx& ctx, std::set<std::string>& seen, const Image& im, const s
 
   check_geometry(ctx, im, *rim, tag);
 
-  const Hdr h = parse_header(base + ".hv");
+  // independent decoding of header text and data file (diagnostic: stored numbers in the witnesses, order / sign of stored integers)
+  const Hdr h = parse_header(fn);
   if (!h.ok)
-    strict(ctx, "header-file-missing", tag.str());
+    throw std::runtime_error("harness: cannot re-open header " + fn);
   std::vector<unsigned char> raw;
   std::vector<double> st;
   if (!slurp(dir_of(fn) + "/" + h.data_file, raw) || !decode_raw(raw, h.get_offset(1), v.size(), t, s.little, st))
-    strict(ctx, std::string("data-file-shorter-than-image:") + t.name,
-           fmt("data file '%s' has %zu bytes, %zu needed ", h.data_file.c_str(), raw.size(), v.size() * t.bytes) + tag.str());
+    st.clear();
+  else
+    ctx.count("data_files_decoded_independently", 1);
   std::vector<float> r;
   get_values(*rim, r);
   check_values(ctx, seen, t, v, r, st, S, h.get_scale(1), tag);
@@ -1131,63 +1133,30 @@ roundtrip_single(Ctx& ctx, std::set<std::string>& seen, const Image& im, const s
 }
 
 // ---------------------------------------------------------------------------------------------- cases
-static int
-probe_stride()
-{
-  const char* e = std::getenv("VERIF_C10_PROBE_STRIDE");
-  const int s = e ? std::atoi(e) : 2;
-  return s > 0 ? s : 1;
-}
-
 static void
-case_single(Ctx& ctx, bool probe)
+case_single(Ctx& ctx)
 {
   vf::Rng& rng = ctx.rng;
   const Geo g = gen_geo(rng, 12, 1728);
   ExamSpec ex = gen_exam(rng, -1);
   shared_ptr<Image> im = make_image(g, ex.ei);
   vf::Desc vd;
-  int dist = pick_dist(rng);
-  if (probe) // probes need something positive (and not so tiny that a float scale factor underflows) to represent
-    dist = static_cast<int>(rng.pick(std::vector<int>{ 0, 0, 1, 2, 7 }));
+  const int dist = pick_dist(rng);
   fill_values(*im, rng, dist, vd);
-  if (probe)
-    {
-      bool any = false;
-      for (auto it = im->begin_all(); it != im->end_all(); ++it)
-        {
-          *it = std::fabs(*it);
-          any |= *it > 0;
-        }
-      if (!any)
-        *im->begin_all() = 1.f;
-    }
   std::vector<float> v;
   get_values(*im, v);
-  ctx.desc.add("kind", probe ? "wide-type-autoscale-probe" : "single").add("geometry", g.desc()).add("exam", ex.d).add("data", vd);
+  ctx.desc.add("kind", "single").add("geometry", g.desc()).add("exam", ex.d).add("data", vd);
   ctx.nontrivial = v.size() >= 2 && non_constant(v);
-  ctx.heartbeat(probe ? "probe" : "single");
+  ctx.heartbeat("single");
   std::set<std::string> seen;
   int counter = 0;
-  ctx.count(probe ? "probe_cases" : "single_cases", 1);
+  ctx.count("single_cases", 1);
   ctx.count(std::string("dist_") + DIST_NAMES[dist], 1);
   if (g.mn[0] != 0 || g.mn[1] != -(g.n[1] / 2) || g.mn[2] != -(g.n[2] / 2))
     ctx.count("geometry_nonstandard_index_range", 1);
   if (g.mn[0] < 0 || g.mn[1] < 0 || g.mn[2] < 0)
     ctx.count("geometry_negative_min_index", 1);
 
-  if (probe)
-    {
-      // automatic scaling (scale_to_write_data = 0, the default) for the types where stir::round()'s int result is narrower
-      // than the output type, and for DOUBLE.  One type per probe case (UB under UBSan ends the process).
-      static const NumericType::Type P[] = { NumericType::UINT, NumericType::LONG, NumericType::ULONG, NumericType::DOUBLE };
-      const TypeInfo& t = type_info(P[((ctx.idx / 20) / probe_stride()) % 4]);
-      ctx.desc.add("probe_type", t.name);
-      Setting s{ &t, rng.coin(0.5), 0.f, "auto" };
-      ctx.count(std::string("probe_") + t.name, 1);
-      roundtrip_single(ctx, seen, *im, v, s, counter, false, "single");
-      return;
-    }
   bool first = true;
   for (int ti = 0; ti < NUM_TYPES; ++ti)
     {
@@ -1198,15 +1167,18 @@ case_single(Ctx& ctx, bool probe)
           Setting s;
           s.t = &t;
           s.little = rep == 0 ? little0 : !little0;
-          s.mode = rep == 0 && !t.wide && t.id != NumericType::DOUBLE ? "auto" : pick_mode(rng, t, true);
+          // automatic scaling (scale_to_write_data = 0, the default) once for every type
+          s.mode = rep == 0 ? "auto" : pick_mode(rng, t, true);
           s.su = pick_scale(rng, t, v, s.mode);
+          if (s.mode == "auto" && (t.wide || t.id == NumericType::DOUBLE))
+            ctx.count(std::string("autoscale_") + t.name, 1);
           roundtrip_single(ctx, seen, *im, v, s, counter, first || rng.coin(0.15));
           first = false;
         }
     }
 }
 
-// settings usable for the containers (automatic scaling only where it is not already known to be broken)
+// settings usable for the containers
 static Setting
 container_setting(vf::Rng& rng, const std::vector<float>& all_values)
 {
@@ -1250,24 +1222,16 @@ check_part(Ctx& ctx, std::set<std::string>& seen, const Image& o, const Image& r
   std::vector<float> v, rv;
   get_values(o, v);
   get_values(r, rv);
-  if (unsigned_autoscale_write_breaks(*s.t, s.su, v, o.get_x_size()))
-    {
-      defect(ctx, seen, std::string("unsigned-output-of-nonpositive-image-unreadable:") + s.t->name,
-             "this part has no positive values and an all-negative row: write_data() fails for it, its bytes are missing from the data file "
-                 + tag.str());
-      return;
-    }
   const Hdr h = parse_header(hv);
   if (!h.ok)
-    strict(ctx, "header-file-missing", hv + " " + tag.str());
+    throw std::runtime_error("harness: cannot re-open header " + hv);
   std::vector<unsigned char> raw;
   std::vector<double> st;
   if (!slurp(dir_of(hv) + "/" + h.data_file, raw) || !decode_raw(raw, h.get_offset(hdr_index), v.size(), *s.t, s.little, st))
-    strict(ctx, std::string("data-file-shorter-than-image:") + s.t->name,
-           fmt("data file '%s' has %zu bytes, part %d at offset %lu needs %zu ", h.data_file.c_str(), raw.size(), part, h.get_offset(hdr_index),
-               v.size() * s.t->bytes)
-               + tag.str());
-  if (nm_single_file && hdr_index >= 2 && rv.size() == v.size())
+    st.clear();
+  else
+    ctx.count("data_files_decoded_independently", 1);
+  if (nm_single_file && hdr_index >= 2 && rv.size() == v.size() && st.size() == v.size())
     {
       // does the read-back part consist of the numbers stored at offset 0 (times this part's scale factor)?
       std::vector<double> st0;
@@ -1361,9 +1325,9 @@ case_dynamic(Ctx& ctx, bool multi)
       // the format documents that it only writes native byte order: ask for the other one in half the cases
       const bool ask_other = rng.coin(0.5);
       const ByteOrder asked = (native_is_little() != ask_other) ? ByteOrder::little_endian : ByteOrder::big_endian;
-      const ByteOrder got = f.set_byte_order(asked);
-      if (!got.is_native_order())
-        strict(ctx, "dynamic-interfile:non-native-byte-order-accepted", tag.str());
+      const ByteOrder got = f.set_byte_order(asked); // "returns type actually used"
+      s.little = got.is_native_order() == native_is_little();
+      ctx.count(got.is_native_order() ? "container_byte_order_native" : "container_byte_order_swapped", 1);
       f.set_scale_to_write_data(s.su);
       tag.type = s.t->name;
       tag.byte_order = s.little ? "little-endian" : "big-endian";
@@ -1428,13 +1392,8 @@ case_dynamic(Ctx& ctx, bool multi)
       bool k4 = false;
       for (int f = 0; f < F; ++f)
         k4 |= unsigned_autoscale_write_breaks(*s.t, s.su, fv[f], g.n[2]);
-      if (k4)
-        {
-          defect(ctx, seen, std::string("unsigned-output-of-nonpositive-image-unreadable:") + s.t->name, w);
-          cleanup();
-          return;
-        }
-      strict(ctx, "read-back-failed:" + tag.container, w);
+      cleanup();
+      strict(ctx, std::string(k4 ? "read-back-failed:unsigned-output-of-image-without-positive-values:" : "read-back-failed:") + tag.container, w);
     }
   if (rd->get_num_time_frames() != static_cast<unsigned>(F) || rd->get_densities().size() != static_cast<size_t>(F))
     strict(ctx, "dynamic:number-of-frames",
@@ -1470,8 +1429,10 @@ case_parametric(Ctx& ctx, bool multi)
 {
   vf::Rng& rng = ctx.rng;
   const Geo g = gen_geo(rng, 10, 600);
-  // Multi writes each parameter as a single image, whose reader documents that only the first time frame is kept
-  const int F = multi ? 1 : static_cast<int>(rng.range(1, 3));
+  // Exactly one time frame: Multi writes each parameter as a single image, whose reader documents that only the first time
+  // frame is kept; InterfileImageHeader documents "currently, this is only implemented for either multiple time frames OR
+  // multiple data types" (a parametric image has 2 data types)
+  const int F = 1;
   ExamSpec ex = gen_exam(rng, F);
   shared_ptr<Image> p1 = make_image(g, ex.ei), p2 = make_image(g, ex.ei);
   vf::Desc d1, d2;
@@ -1506,8 +1467,9 @@ case_parametric(Ctx& ctx, bool multi)
       f.set_type_of_numbers(NumericType(s.t->id));
       const bool ask_other = rng.coin(0.5);
       const ByteOrder asked = (native_is_little() != ask_other) ? ByteOrder::little_endian : ByteOrder::big_endian;
-      if (!f.set_byte_order(asked).is_native_order())
-        strict(ctx, "parametric-interfile:non-native-byte-order-accepted", tag.str());
+      const ByteOrder got = f.set_byte_order(asked); // "returns type actually used"
+      s.little = got.is_native_order() == native_is_little();
+      ctx.count(got.is_native_order() ? "container_byte_order_native" : "container_byte_order_swapped", 1);
       f.set_scale_to_write_data(s.su);
     tag.type = s.t->name;
       tag.byte_order = s.little ? "little-endian" : "big-endian";
@@ -1568,23 +1530,9 @@ case_parametric(Ctx& ctx, bool multi)
   if (!rd)
     {
       const std::string w = "write_to_file reported success but reading back fails (" + why + ") " + tag.str();
-      if (unsigned_autoscale_write_breaks(*s.t, s.su, v1, g.n[2]) || unsigned_autoscale_write_breaks(*s.t, s.su, v2, g.n[2]))
-        {
-          defect(ctx, seen, std::string("unsigned-output-of-nonpositive-image-unreadable:") + s.t->name, w);
-          cleanup();
-          return;
-        }
-      // reader defect: with T > 1 time frames the header class expects T x 2 scale factors; the writer emits 2 and, when they are
-      // equal and not 1, also 'quantification units', whose consistency check then fails on the T x 2 - 2 defaulted entries
-      const float S1 = lib_scale(*p1, s.t->id, s.su), S2 = lib_scale(*p2, s.t->id, s.su);
-      if (!multi && F > 1 && S1 == S2 && S1 != 1.f)
-        {
-          defect(ctx, seen, "parametric-interfile-with-several-time-frames:own-header-rejected-by-reader",
-                 fmt("%d time frames in the exam info, both parameters written with scale factor %.9g: ", F, static_cast<double>(S1)) + w);
-          cleanup();
-          return;
-        }
-      strict(ctx, "read-back-failed:" + tag.container, w);
+      const bool k4 = unsigned_autoscale_write_breaks(*s.t, s.su, v1, g.n[2]) || unsigned_autoscale_write_breaks(*s.t, s.su, v2, g.n[2]);
+      cleanup();
+      strict(ctx, std::string(k4 ? "read-back-failed:unsigned-output-of-image-without-positive-values:" : "read-back-failed:") + tag.container, w);
     }
   if (rd->get_num_params() != 2)
     strict(ctx, "parametric:number-of-parameters", tag.str());
@@ -1597,17 +1545,6 @@ case_parametric(Ctx& ctx, bool multi)
     }
   check_exam_info(ctx, par.get_exam_info(), rd->get_exam_info(), frames_of(par.get_exam_info()), tag);
   cleanup();
-}
-
-// the truncation sweep needs a complete data file: avoid the (separately reported) unsigned / no-positive-value write defect
-static void
-make_writable(Image& im, const TypeInfo& t)
-{
-  std::vector<float> v;
-  get_values(im, v);
-  if (unsigned_autoscale_write_breaks(t, 0.f, v, im.get_x_size()))
-    for (auto it = im.begin_all(); it != im.end_all(); ++it)
-      *it = std::fabs(*it);
 }
 
 // truncation sweep: a data file shorter than the header announces must never give an image
@@ -1648,7 +1585,6 @@ case_truncation(Ctx& ctx)
   if (!dynamic)
     {
       fill_values(*im, rng, dist, vd);
-      make_writable(*im, t);
       InterfileOutputFileFormat f;
       f.set_type_of_numbers(NumericType(t.id));
       f.set_byte_order(little ? ByteOrder::little_endian : ByteOrder::big_endian);
@@ -1671,7 +1607,6 @@ case_truncation(Ctx& ctx)
           Image fr(shared_ptr<const ExamInfo>(new ExamInfo(ei)), im->get_index_range(), im->get_origin(), im->get_grid_spacing());
           vf::Desc d;
           fill_values(fr, rng, dist, d);
-          make_writable(fr, t);
           dyn.set_density(fr, f);
         }
       InterfileDynamicDiscretisedDensityOutputFileFormat f;
@@ -1774,10 +1709,8 @@ run_case(Ctx& ctx)
         case_parametric(ctx, true);
       else if (k == 16 || k == 17)
         case_truncation(ctx);
-      else if (k == 19 && (ctx.idx / 20) % probe_stride() == 0)
-        case_single(ctx, true);
       else
-        case_single(ctx, false);
+        case_single(ctx);
     }
   catch (const EndCase&)
     {}
